@@ -21,8 +21,8 @@ def alter_sequence(seq):
             if new_seq == seq:
                 changed = False
             else:
-                changed = True
-                new_seq = alter_sequence(new_seq)
+                # the altered sequence may be altered further
+                return alter_sequence(new_seq)
     if not changed:
         return orig_seq
     return seq
